@@ -1,4 +1,6 @@
 
+val negb : bool -> bool
+
 type nat =
 | O
 | S of nat
@@ -172,3 +174,100 @@ val mulc : z -> bool -> z -> z -> z option
 val pow_loop_ck : bool -> nat -> z -> bool -> z -> z -> z -> pres
 
 val int_pow_ck : bool -> z -> bool -> z -> z -> pres
+
+type atype =
+| AInt
+| AUInt
+| AFloat
+
+type bkind =
+| BNegIntConst
+| BNonNegIntConst
+| BRuntimeSignedInt
+| BRuntimeUnsignedInt
+| BIntegralFloatConst
+| BFloatConst
+| BRuntimeFloat
+
+type rtype =
+| RInt
+| RFloat
+| RSoftComplex
+| ROther
+| RComplex
+| RObj
+
+val a_is_int : atype -> bool
+
+val b_is_int : bkind -> bool
+
+val doc_allows : bool -> atype -> bkind -> rtype -> bool
+
+type cpow3 =
+| CUnset
+| CTrue
+| CFalse
+
+type opnd =
+| OC of atype
+| OComplex
+| OObj
+| OPosFloat
+| OPosIntConst
+
+type ekind =
+| EC of bkind
+| EComplexConst
+| ERuntimeComplex
+| EObj
+
+type dest =
+| DNone
+| DCInt
+| DCFloat
+| DCComplex
+| DPyObj
+| DCastInt
+| DCastFloat
+| DArithInt
+| DArithFloat
+
+val eff_cpow : cpow3 -> bool
+
+val o_is_c_real : opnd -> bool
+
+val e_is_c_real : ekind -> bool
+
+val o_is_c_int : opnd -> bool
+
+val e_is_c_int : ekind -> bool
+
+val base_type : opnd -> ekind -> rtype
+
+val widen : rtype -> rtype
+
+val pow_type : bool -> opnd -> ekind -> rtype
+
+val type_inferred : opnd -> ekind -> bool
+
+val is_direct_c_real : dest -> bool
+
+val fallback_fires : cpow3 -> opnd -> ekind -> dest -> bool
+
+val assignable : rtype -> dest -> bool
+
+type outcome = { o_type : rtype; o_rejected : bool; o_warned : bool }
+
+val pow_coerced : cpow3 -> opnd -> ekind -> dest -> outcome
+
+val doc_coerced : cpow3 -> opnd -> ekind -> dest -> outcome
+
+type delivery =
+| VInt
+| VFloat
+| VPyReal
+| VPyComplex
+| VTypeError
+| VNoValue
+
+val deliver : rtype -> dest -> bool -> delivery
